@@ -83,6 +83,7 @@ type VC struct {
 	modBody       map[*ssa.BasicBlock]bool
 	modLocals     map[*ssa.Alloc]map[string]bool
 	modCells      []modCell
+	modMaps       []*ssa.MapUpdate
 }
 
 type loopInfo struct {
@@ -95,6 +96,7 @@ type loopInfo struct {
 	hasVar     bool
 	modLocals  map[*ssa.Alloc]map[string]bool
 	modCells   []modCell
+	modMaps    []*ssa.MapUpdate
 	frameNames []string
 }
 
@@ -632,6 +634,25 @@ func (vc *VC) enterLoop(fr *Frame, li *loopInfo, merged *State, phiEntry map[*ss
 			vc.q.Assert(vc.wfAssume(st, nv, mc.ty, 0))
 			vc.store(st, addr, mc.ty, nv)
 		}
+		for _, mu := range li.modMaps {
+			mt := mu.Map.Type().Underlying().(*types.Map)
+			dn, vn, ks, vs := vc.mapNames(mt)
+			r := Root(vc.val(fr, mu.Map))
+			if !mods[dn] {
+				m := vc.get(st, dn, ArraySort(SInt, ArraySort(ks, SBool)))
+				st.mem[dn] = vc.q.Define(dn+"$mrow", Store(m, r, vc.q.Fresh(dn+"$mr", ArraySort(ks, SBool))))
+			}
+			if !mods[vn] {
+				m := vc.get(st, vn, ArraySort(SInt, ArraySort(ks, vs)))
+				st.mem[vn] = vc.q.Define(vn+"$mrow", Store(m, r, vc.q.Fresh(vn+"$mr", ArraySort(ks, vs))))
+			}
+			if !mods["ML"] {
+				m := vc.get(st, "ML", ArraySort(SInt, SInt))
+				nl := vc.q.Fresh("ML$mr", SInt)
+				vc.q.Assert(Le(IntLit(0), nl))
+				st.mem["ML"] = vc.q.Define("ML$mrow", Store(m, r, nl))
+			}
+		}
 		for a, names := range li.modLocals {
 			p, ok := fr.vals[a]
 			if !ok {
@@ -743,7 +764,15 @@ func (vc *VC) loopMods(fr *Frame, li *loopInfo) (map[string]bool, bool) {
 	vc.modLocals = map[*ssa.Alloc]map[string]bool{}
 	li.modLocals = vc.modLocals
 	vc.modCells = []modCell{}
-	defer func() { li.modCells = vc.modCells; vc.modBody = nil; vc.modLocals = nil; vc.modCells = nil }()
+	vc.modMaps = []*ssa.MapUpdate{}
+	defer func() {
+		li.modCells = vc.modCells
+		li.modMaps = vc.modMaps
+		vc.modBody = nil
+		vc.modLocals = nil
+		vc.modCells = nil
+		vc.modMaps = nil
+	}()
 	for b := range li.body {
 		for _, ins := range b.Instrs {
 			if vc.instrMods(fr, ins, mods, 0) {
@@ -788,6 +817,11 @@ func (vc *VC) instrMods(fr *Frame, ins ssa.Instruction, mods map[string]bool, de
 		}
 		vc.memNamesOf(t.Val.Type(), mods)
 	case *ssa.MapUpdate:
+		if depth == 0 && vc.modMaps != nil && definedOutside(t.Map, vc.modBody) {
+			// an entry of a map whose identity does not change in the region: only that map's rows change
+			vc.modMaps = append(vc.modMaps, t)
+			break
+		}
 		mt := t.Map.Type().Underlying().(*types.Map)
 		d, v, _, _ := vc.mapNames(mt)
 		mods[d] = true
@@ -1087,6 +1121,17 @@ func fieldChainOf(addr ssa.Value, body map[*ssa.BasicBlock]bool) (ssa.Value, []i
 		}
 	}
 	return nil, nil, false
+}
+
+// definedOutside: v is a parameter, a captured variable, a global, or computed by an instruction outside the region.
+func definedOutside(v ssa.Value, body map[*ssa.BasicBlock]bool) bool {
+	switch b := v.(type) {
+	case *ssa.Parameter, *ssa.FreeVar, *ssa.Global:
+		return true
+	case ssa.Instruction:
+		return b.Block() != nil && body != nil && !body[b.Block()]
+	}
+	return false
 }
 
 // recoverGuard: the condition under which a deferred function that calls recover() is installed on the current path,
